@@ -272,10 +272,17 @@ func runProperty(p propCfg, tier string) int {
 	}
 	os.RemoveAll(filepath.Join(root, "props", "testdata", "rapid"))
 	work := filepath.Join(root, ".build", "run", fmt.Sprintf("%s-%s-%d", p.ID, tier, os.Getpid()))
+	logTag := ""
+	if altRepo() {
+		logTag = fmt.Sprintf("alt%d.", os.Getpid())
+	}
 	os.RemoveAll(work)
 	os.MkdirAll(work, 0o755)
 	defer os.RemoveAll(work)
 	logDir := filepath.Join(root, ".build", "logs")
+	if logTag != "" {
+		logDir = filepath.Join(logDir, logTag)
+	}
 
 	violations := 0
 	infra := 0
@@ -512,6 +519,9 @@ func keepFound(id, src string) string {
 	}
 	sum := sha256.Sum256(b)
 	dir := filepath.Join(root, "found", id)
+	if altRepo() {
+		dir = filepath.Join(root, ".build", "found-alt", id)
+	}
 	os.MkdirAll(dir, 0o755)
 	dst := filepath.Join(dir, hex.EncodeToString(sum[:6])+".json")
 	os.WriteFile(dst, b, 0o644)
@@ -524,6 +534,9 @@ func keepRace(id, work string, r runResult) string {
 	tag := fmt.Sprintf("%s.p%d.s%d", id, r.part, r.shard)
 	running := filepath.Join(work, "found."+tag, "running.json")
 	dir := filepath.Join(root, "found", id)
+	if altRepo() {
+		dir = filepath.Join(root, ".build", "found-alt", id)
+	}
 	os.MkdirAll(dir, 0o755)
 	b, err := os.ReadFile(running)
 	if err != nil {
@@ -633,8 +646,17 @@ func mergeEvidence(p propCfg, tier string, base int64, work string, njobs, repla
 	return ev
 }
 
+func altRepo() bool {
+	r := os.Getenv("VERIF_REPO")
+	return r != "" && r != "/repo"
+}
+
 func writeEvidence(id string, ev map[string]interface{}) error {
 	dir := filepath.Join(root, "evidence")
+	if altRepo() {
+		// sensitivity self-test on a scratch copy: never overwrite the real evidence
+		dir = filepath.Join(root, ".build", "evidence-alt")
+	}
 	os.MkdirAll(dir, 0o755)
 	b, err := json.MarshalIndent(ev, "", " ")
 	if err != nil {
